@@ -427,6 +427,21 @@ fn exec_unsync<S: std::hash::BuildHasher + Clone>(c: &mut UCache<VKey, VVal, S>,
             }
             None => "bad-op".into(),
         },
+        Some("iterlag") if ws.len() == 2 => match ws[1].parse::<u128>() {
+            // the iterator is created, the clock moves, then the iterator is consumed: what it
+            // yields must be live at the time it is yielded
+            Ok(d) => {
+                let it = c.iter();
+                clock.advance(dur(d));
+                let mut v: Vec<(u64, u64)> = it.map(|(k, v)| (k.0, v.0)).collect();
+                v.sort();
+                format!(
+                    "iter {}",
+                    v.iter().map(|(k, v)| format!("{}:{}", k, v)).collect::<Vec<_>>().join(",")
+                )
+            }
+            Err(_) => "bad-op".into(),
+        },
         Some("iter") if ws.len() == 1 => {
             let mut v: Vec<(u64, u64)> = c.iter().map(|(k, v)| (k.0, v.0)).collect();
             v.sort();
@@ -825,6 +840,19 @@ fn exec_sync<S: std::hash::BuildHasher + Clone + Send + Sync + 'static>(c: &SCac
             }
             None => "bad-op".into(),
         },
+        Some("iterlag") if ws.len() == 2 => match ws[1].parse::<u128>() {
+            Ok(d) => {
+                let it = c.iter();
+                clock.advance(dur(d));
+                let mut v: Vec<(u64, u64)> = it.map(|e| (e.key().0, e.value().0)).collect();
+                v.sort();
+                format!(
+                    "iter {}",
+                    v.iter().map(|(k, v)| format!("{}:{}", k, v)).collect::<Vec<_>>().join(",")
+                )
+            }
+            Err(_) => "bad-op".into(),
+        },
         Some("iter") if ws.len() == 1 => {
             let mut v: Vec<(u64, u64)> = c.iter().map(|e| (e.key().0, e.value().0)).collect();
             v.sort();
@@ -961,6 +989,12 @@ pub fn run_file<R: BufRead, W: Write>(input: R, out: &mut W) {
             continue;
         }
         if dead {
+            continue;
+        }
+        if op == "noinject" {
+            // kind=inject: from here on no callback point injects a step any more
+            INJECT_HOOK.with(|h| h.set(None));
+            writeln!(out, "noinject -> ok").unwrap();
             continue;
         }
         if op == "drop" {
